@@ -26,7 +26,15 @@ def run(ctx):
         ng = r.choice([3, 8, 20, 40])
         body = nt.random_track(r, ng, res=192, phrases=r.choice([1, 2, 3, 6, 12, 40]), events=r.choice([0, 2]),
                                max_tick_gap=30, unit_gap_p=0.4, big=(r.random() < 0.1))
-        cases.append({"id": f"C05-s{k}", "res": 192, "body": body})
+        case = {"id": f"C05-s{k}", "res": 192, "body": body}
+        if k % 2:
+            # tempo changes inside the section's tick range (inside, on the edges of and between the phrases): membership is
+            # a matter of ticks, whatever the tempo map does meanwhile
+            ticks = sorted({it[1] for it in body})
+            cand = sorted({max(1, t + d) for t in ticks for d in (-1, 0, 1)} | {r.randrange(1, ticks[-1] + 2) for _ in range(6)})
+            chosen = sorted(r.sample(cand, min(len(cand), r.choice([1, 2, 3, 6, 12]))))
+            case["tempo"] = [[0, 120000]] + [[t, r.choice([60000, 90000, 200000, 1000 * r.randrange(1, 1000)])] for t in chosen]
+        cases.append(case)
     _notes._judge(ctx, cases, "C05", "seeded tracks with many phrases", max_skip_ratio=0.01)
     # several instrument sections in one chart, each judged as if it were alone
     cases = _notes.seeded_multi(ctx, "C05", ctx.pick(150, 2500), max_tick_gap=30, unit_gap_p=0.4)
